@@ -767,8 +767,8 @@ def _kw_names(f):
             if inspect.isfunction(f) and (top.startswith("pyModeS") or top.startswith("pms_") or top.startswith("c_common")):
                 # functions of the package (under any of the names its copies are loaded as) - never a helper of the harness, which may hold state
                 ps = list(inspect.signature(f).parameters.values())
-                if all(p.kind == p.POSITIONAL_OR_KEYWORD for p in ps):
-                    names = [p.name for p in ps]
+                if all(p.kind == p.POSITIONAL_OR_KEYWORD for p in ps) and not (ps and ps[0].name in ("self", "cls")):
+                    names = [p.name for p in ps]   # (a method called through its class would be given its object twice: left alone)
         except (TypeError, ValueError):
             names = None
         _KW_SIG[key] = (f, names)   # (keeps f alive so that the id stays its own)
